@@ -904,6 +904,14 @@ func (u *Unit) checkPost(st *State, pos token.Pos) {
 			g := env.evalBool(en.Expr)
 			u.emit(st, "post", fmt.Sprintf("post#%d", i), "ensures "+en.Text, pos, g)
 		}
+		if !u.mentionsHeld {
+			for _, g := range sortedKeys(st.ghost) {
+				if strings.HasPrefix(g, "held:") {
+					key := strings.TrimPrefix(g, "held:")
+					u.emit(st, "lock", "lock-balanced["+key+"]", "lock state of "+key+" at return equals the state at entry (contract does not mention held())", pos, eq(st.ghost[g], u.heldTerm(u.entry, key)))
+				}
+			}
+		}
 		for i, pc := range u.ct.Panics {
 			g := not(env.evalBool(pc.Expr))
 			u.emit(st, "post", fmt.Sprintf("returns-only-if-not-panics#%d", i), "normal return only when not ("+pc.Text+")", pos, g)
@@ -1054,6 +1062,10 @@ func (u *Unit) havocLoop(st *State, body ast.Node, extra []*types.Var) {
 		if u.boxed[v] {
 			continue // lives in the heap
 		}
+		if cur := st.vars[v]; cur.Spec != "" {
+			st.vars[v] = Term{S: u.c.fresh(v.Name(), cur.Spec), Spec: cur.Spec}
+			continue
+		}
 		f := u.freshOf(st, v.Type(), v.Name())
 		st.vars[v] = f
 	}
@@ -1071,14 +1083,62 @@ func (u *Unit) havocLoop(st *State, body ast.Node, extra []*types.Var) {
 	na := u.c.fresh("alloc", "Int")
 	st.assume("(>= " + na + " " + st.alloc + ")")
 	st.alloc = na
-	// ghost lock state: havoc if the body touches locks (coarse: any call)
-	if all {
+	// ghost lock state: havoc only if the body can change it
+	if u.locksTouched(body) {
 		for _, g := range sortedKeys(st.ghost) {
 			if strings.HasPrefix(g, "held:") {
 				st.ghost[g] = u.c.fresh("held", "Int")
 			}
 		}
 	}
+}
+
+// locksTouched: the loop body contains a mutex operation, a call of a contracted function whose contract speaks about
+// held(), or a call of an uncontracted repository function (contracted functions without held() preserve the lock state).
+func (u *Unit) locksTouched(n ast.Node) bool {
+	touched := false
+	ast.Inspect(n, func(n ast.Node) bool {
+		switch n := n.(type) {
+		case *ast.FuncLit:
+			return false
+		case *ast.CallExpr:
+			callee, _ := u.staticCallee(n)
+			if callee == nil {
+				if tv, ok := u.info.Types[n.Fun]; ok && tv.IsType() {
+					return true
+				}
+				if id, ok := ast.Unparen(n.Fun).(*ast.Ident); ok {
+					if _, isB := u.info.Uses[id].(*types.Builtin); isB {
+						return true
+					}
+					if u.ct != nil && u.ct.FnPure[id.Name] {
+						return true
+					}
+				}
+				touched = true
+				return true
+			}
+			full := callee.FullName()
+			if strings.HasPrefix(full, "(*sync.RWMutex).") || strings.HasPrefix(full, "(*sync.Mutex).") {
+				touched = true
+				return true
+			}
+			if callee.Pkg() != nil && u.eng.isRepoPkg(callee.Pkg().Path()) {
+				ct, _ := u.eng.contractFor(callee)
+				if ct == nil {
+					touched = true
+					return true
+				}
+				for _, cl := range append(append([]Clause{}, ct.Requires...), ct.Ensures...) {
+					if strings.Contains(cl.Text, "held(") {
+						touched = true
+					}
+				}
+			}
+		}
+		return true
+	})
+	return touched
 }
 
 func (u *Unit) execFor(st *State, s *ast.ForStmt, label string) *State {
@@ -1309,12 +1369,22 @@ func (u *Unit) runLoopImplicit(st *State, lc *LoopContract, n int, label string,
 // execRangeMap: the body is proved for an arbitrary present key, in an arbitrary visiting order.
 func (u *Unit) execRangeMap(st *State, s *ast.RangeStmt, lc *LoopContract, n int, label string, keyVar, valVar *types.Var, mt *types.Map) *State {
 	m := u.eval(st, s.X)
+	// ghost set of keys already visited (visitedN(k) in invariants): each present key is visited at most once
+	ks := u.c.sortOf(mt.Key())
+	vis := types.NewVar(s.Pos(), u.pkg.Types, fmt.Sprintf("visited%d", n), types.Typ[types.Bool])
+	u.visitedVars[n] = vis
+	st.vars[vis] = Term{S: fmt.Sprintf("((as const (Array %s Bool)) false)", ks), Spec: fmt.Sprintf("(Array %s Bool)", ks)}
 	more := func(st *State) (string, bool) { return u.c.fresh("mapmore", "Bool"), true }
 	return u.runLoop(st, lc, n, label, s.Pos(), s.Body.Pos(), s.Body, more,
 		func(st *State) *State {
 			k := u.freshOf(st, mt.Key(), "mapkey")
 			v, present := u.mapLookup(st, m, k, mt)
 			st.assume(present)
+			cur := st.vars[vis]
+			st.assume(not(fmt.Sprintf("(select %s %s)", cur.S, k.S)))
+			nv := u.c.fresh("visited", cur.Spec)
+			st.assume(eq(nv, fmt.Sprintf("(store %s %s true)", cur.S, k.S)))
+			st.vars[vis] = Term{S: nv, Spec: cur.Spec}
 			if keyVar != nil {
 				if s.Tok == token.DEFINE {
 					u.declareVar(st, keyVar, k)
@@ -1331,7 +1401,7 @@ func (u *Unit) execRangeMap(st *State, s *ast.RangeStmt, lc *LoopContract, n int
 			}
 			return u.execBlock(st, s.Body.List)
 		},
-		func(st *State) *State { return st }, nil)
+		func(st *State) *State { return st }, []*types.Var{vis})
 }
 
 func (u *Unit) execRangeAbstract(st *State, s *ast.RangeStmt, lc *LoopContract, n int, label string, keyVar, valVar *types.Var) *State {
